@@ -35,6 +35,11 @@ type c13Case struct {
 	// composite command). Requests cut off by it are no failures; every handler
 	// call that does happen must still see its connection's state.
 	Stop bool `json:"stop,omitempty"`
+	// Reconf: the application removes the required password before client 0's request
+	// #1 and sets another one ("Other1") before its request #2. Whatever the
+	// connection may do while no password is required, it has not presented the
+	// new one afterwards.
+	Reconf bool `json:"reconfigure_password,omitempty"`
 }
 
 // c13Model is the per-client model of connection-scoped state.
@@ -46,6 +51,8 @@ type c13Model struct {
 }
 
 type c13World struct {
+	nopass   bool   // no password is required right now (Reconf)
+	pass     string // the password required right now
 	keep     []*redis.Conn // every connection object seen stays referenced for the whole execution
 	mc       *mcWorld
 	password bool
@@ -74,7 +81,7 @@ func c13ScriptSet(i int) [][][]string {
 }
 
 func c13NewWorld(scripts [][][]string, password bool, reconn []int, stop bool) *c13World {
-	w := &c13World{password: password}
+	w := &c13World{password: password, pass: c13Pass}
 	w.model = make([]*c13Model, len(scripts))
 	for i := range w.model {
 		w.model[i] = &c13Model{auth: !password}
@@ -101,10 +108,10 @@ func c13NewWorld(scripts [][][]string, password bool, reconn []int, stop bool) *
 			if int(conn.Database()) != md.db {
 				w.fail("wrong-database", fmt.Sprintf("client %d selected database %d but its handler call %s saw conn.Database()=%d", ci, md.db, c.Method, conn.Database()))
 			}
-			if !conn.IsAuthrized() {
+			if !conn.IsAuthrized() && !w.nopass {
 				w.fail("handler-call-unauthorized", fmt.Sprintf("client %d: handler call %s on a connection that is not authorized", ci, c.Method))
 			}
-			if w.password && !md.auth {
+			if w.password && !md.auth && !w.nopass {
 				w.fail("executed-without-auth", fmt.Sprintf("client %d never authenticated on this connection but %s was executed", ci, c.Method))
 			}
 			if md.conn == nil {
@@ -152,6 +159,13 @@ func c13NewWorld(scripts [][][]string, password bool, reconn []int, stop bool) *
 		switch cmd[0] {
 		case "SELECT":
 			n, err := strconv.Atoi(cmd[1])
+			if w.nopass && !md.auth && err == nil {
+				// no password required right now: either answer is acceptable, the model follows it
+				if o.Reply.Equal(resp.S("OK")) {
+					md.db = n
+				}
+				return
+			}
 			if !allowed || err != nil {
 				if !o.Reply.IsError() {
 					w.fail("select-reply", fmt.Sprintf("client %d: %v answered %s", ci, cmd, o.Reply))
@@ -164,8 +178,8 @@ func c13NewWorld(scripts [][][]string, password bool, reconn []int, stop bool) *
 			}
 			md.db = n
 		case "AUTH":
-			good := len(cmd) == 2 && cmd[1] == c13Pass
-			if !w.password {
+			good := len(cmd) == 2 && cmd[1] == w.pass
+			if !w.password || w.nopass {
 				return // no expectation without a configured password
 			}
 			if good {
@@ -178,6 +192,9 @@ func c13NewWorld(scripts [][][]string, password bool, reconn []int, stop bool) *
 				w.fail("auth-reply", fmt.Sprintf("client %d: AUTH with a wrong password answered %s", ci, o.Reply))
 			}
 		default:
+			if w.nopass && !md.auth {
+				return // no password required right now: no expectation for a connection that never authenticated
+			}
 			if allowed && o.Reply.IsError() {
 				w.fail("refused-although-authorized", fmt.Sprintf("client %d: %v answered %s although the connection is authorized (database %d)", ci, cmd, o.Reply, md.db))
 			}
@@ -195,6 +212,21 @@ func c13Explorer(cs c13Case, bound int) *sched.Explorer {
 		w := c13NewWorld(cs.Scripts, cs.Password, cs.Reconn, cs.Stop)
 		if cs.Stop {
 			w.mc.Background = func(m *mcWorld) { m.Srv.Stop() }
+		}
+		if cs.Reconf {
+			w.mc.BeforeSend = func(ci, idx int) {
+				if ci != 0 {
+					return
+				}
+				switch idx {
+				case 1:
+					w.mc.Srv.RemoveRequirePass()
+					w.nopass = true
+				case 2:
+					w.mc.Srv.SetRequirePass("Other1")
+					w.nopass, w.pass = false, "Other1"
+				}
+			}
 		}
 		// a new connection starts at the defaults
 		w.mc.OnReconnect = func(ci int) {
@@ -398,6 +430,15 @@ func c13Run(c *fw.Ctx) {
 				cs := c13Case{Kind: "sched", Scripts: scripts, Password: password, Reconn: reconn}
 				c13Explore(c, cs, bound)
 			}
+		}
+	}
+	// the required password removed and replaced while an unauthenticated connection is open
+	if c.Mine() {
+		for _, sc := range [][][]string{
+			{{"GET", "k0"}, {"GET", "k0"}, {"GET", "k0"}, {"AUTH", c13Pass}, {"GET", "k0"}, {"AUTH", "Other1"}, {"SELECT", "2"}, {"GET", "k0"}},
+			{{"AUTH", "nope"}, {"SELECT", "1"}, {"GET", "k0"}, {"SELECT", "4"}, {"AUTH", "Other1"}, {"GET", "k0"}},
+		} {
+			c13Explore(c, c13Case{Kind: "sched", Scripts: [][][]string{sc}, Password: true, Reconn: []int{0}, Reconf: true}, 2)
 		}
 	}
 	// Stop while composite commands (several handler calls each) are in flight
